@@ -106,6 +106,10 @@ func vhC15(window bool) {
 		actor := verifrt.Choice("actor", 4) // 3 = nobody
 		if actor < 3 {
 			hs[actor].action = verifrt.Choice("action", 3) + 1
+			if hs[actor].action == 3 {
+				// publishing from inside a handler is an application-level scenario (core handlers are the stack's own)
+				verifrt.Assume(has(bus.handlers, actor, 0) == 0)
+			}
 		}
 		before := append([]eventHandlerItem{}, bus.handlers...)
 		if window {
